@@ -9,14 +9,34 @@ package build
 //
 // Within one decision the file system, the xattrs and the graph are fixed: the functions that read them are
 // (assumed) functions of their arguments. RuleHash's memoisation of target.RuleHash is abstracted away.
-//@ assume func readRuleHashFromXattrs
+// readRuleHashFromXattrs is a function of the file system (assumed: `pure`), and it answers with a stored hash
+// only when EVERY output carries a record and all records agree; a half-updated set of records (a crash or a
+// failure between two RecordAttr calls) reads as "no stored hash", so the target is rebuilt (C01, C32).
+//@ func readRuleHashFromXattrs
 //@   pure
+//@   requires state != nil && target != nil
+//@   opt nopanic=off
+//@   invariant "range target.FullOutputs()" agree: forall k int :: 0 <= k && k < idx ==> \
+//@      fs.ReadAttr(target.FullOutputs()[k], xattrName, state.XattrsSupported) != nil && \
+//@      bytes.Equal(h, fs.ReadAttr(target.FullOutputs()[k], xattrName, state.XattrsSupported))
+//@   invariant "range target.FullOutputs()" some: idx > 0 ==> h != nil
+//@   ensures every_output_carries_the_same_record [C01 C32]: result.config != nil ==> \
+//@      forall k int :: 0 <= k && k < len(target.FullOutputs()) ==> \
+//@      fs.ReadAttr(target.FullOutputs()[k], xattrName, state.XattrsSupported) != nil && \
+//@      bytes.Equal(fs.ReadAttr(target.FullOutputs()[0], xattrName, state.XattrsSupported), \
+//@                  fs.ReadAttr(target.FullOutputs()[k], xattrName, state.XattrsSupported))
 //@ assume func targetBuildMetadataFileName
 //@   pure
 //@ assume func RuleHash
 //@   pure
-//@ assume func sourceHash
+// sourceHash hashes the CONTENTS of every source (never modification times, which do not survive a checkout
+// and miss same-second edits); its value is assumed to be a function of the file system (`pure`).
+//@ func sourceHash
 //@   pure
+//@   requires state != nil && target != nil && state.PathHasher != nil
+//@   opt nopanic=off
+//@   opt inline=off
+//@   callsite (PathHasher).Hash by_content [C01]: !arg_timestamp
 //@ assume func secretHash
 //@   pure
 //
@@ -36,7 +56,7 @@ package build
 // A target is skipped as up to date ONLY IF nothing it depends on changed (C01), and IF nothing changed it
 // is skipped (C03: a no-op build runs nothing).
 //@ func needsBuilding
-//@   requires state != nil && target != nil
+//@   requires state != nil && target != nil && state.PathHasher != nil
 //@   modifies nothing
 //@   invariant "range target.Outputs()" exist: forall j int :: 0 <= j && j < idx ==> \
 //@      core.PathExists(filepath.Join(target.OutDir(), target.Outputs()[j]))
@@ -52,6 +72,7 @@ package build
 //@ func moveOutput
 //@   requires state != nil && target != nil && state.PathHasher != nil
 //@   opt nopanic=off
+//@   modifies state.PathHasher.memo
 //@   ensures unchanged_only_if_same [C01 C03]: !result0 ==> result1 == nil && old(sameAsExisting(state, tmpOutput, realOutput))
 //@   ensures same_is_unchanged [C03]: old(sameAsExisting(state, tmpOutput, realOutput)) ==> !result0 && result1 == nil
 //@   callsite os.Rename only_if_changed [C03]: !old(sameAsExisting(state, tmpOutput, realOutput))
@@ -94,9 +115,119 @@ package build
 //@         core.unprefixed(decl[j]) == hex.EncodeToString(hashOf(target, outs, hashers[i], combine)))
 //
 //@ func checkRuleHashes
+//@   modifies nothing
 //@   requires state != nil && target != nil
 //@   requires forall i int :: 0 <= i && i < len(state.OutputHashCheckers()) ==> state.OutputHashCheckers()[i] != nil
 //@   invariant "range hashes" none: forall k int :: 0 <= k && k < idx ==> hashes[k] != hashStr
 //@   ensures nohashes [C35]: len(old(target.Hashes)) == 0 ==> result == nil
 //@   ensures exact [C35]: len(old(target.Hashes)) != 0 ==> ((result == nil) == declaredOK(target, old(target.Hashes), \
 //@      old(target.FullOutputs()), old(state.OutputHashCheckers()), len(old(target.FullOutputs())) != 1, hash))
+
+// ---------------------------------------------------------------------------------------------
+// Nothing unverified is recorded as up to date (C35, C32): calculateAndCheckRuleHash
+//
+// The rule-hash record (the xattr that makes later builds trust the outputs) is written only after the
+// output hash has been computed and — when hash verification is on — has passed the declared hashes (or
+// the user explicitly asked for new hashes on an original target).
+//@ assume func writeRuleHash
+//@ func calculateAndCheckRuleHash
+//@   requires state != nil && target != nil && state.TargetHasher != nil
+//@   requires forall i int :: 0 <= i && i < len(state.OutputHashCheckers()) ==> state.OutputHashCheckers()[i] != nil
+//@   opt nopanic=off
+//@   opt inline=off
+//@   callsite checkRuleHashes trackresult checkerr error: result
+//@   callsite writeRuleHash only_verified_outputs [C35 C32]: called("checkRuleHashes") && \
+//@      (checkerr == nil || !state.VerifyHashes || (state.NeedHashesOnly && state.IsOriginalTargetOrParent(target)))
+//@   ensures mismatch_fails_the_build [C35]: called("checkRuleHashes") && checkerr != nil && old(state.VerifyHashes) && \
+//@      !(old(state.NeedHashesOnly) && old(state.IsOriginalTargetOrParent(target))) ==> result1 != nil
+
+// ---------------------------------------------------------------------------------------------
+// Collecting outputs (C32, C01): moveOutputs
+//
+// A successful return means EVERY declared output and EVERY optional output found in the temporary directory
+// has been through moveOutput (ghost counter `moved`), in order, and the returned list (which is what gets
+// hashed, recorded and stored in the caches) names exactly those. Only after that may the caller record the
+// rule hash; a crash or an early return in between leaves no record, so the next build redoes the work.
+//@ func moveOutputs
+//@   requires state != nil && target != nil && state.PathHasher != nil && state.Config != nil
+//@   opt nopanic=off
+//@   opt precall=off
+//@   opt inline=off
+//@   callsite moveOutput track moved int: moved + 1
+//@   invariant "range outs" declared: len(allOuts) == len(outs) && moved == old(moved) + idx && \
+//@      (forall k int :: 0 <= k && k < idx ==> allOuts[k] == outs[k])
+//@   invariant "range fs.Glob" optional: len(allOuts) == len(outs) + idx && moved == old(moved) + len(outs) + idx && \
+//@      (forall k int :: 0 <= k && k < len(outs) ==> allOuts[k] == outs[k]) && \
+//@      (forall k int :: 0 <= k && k < idx ==> allOuts[len(outs) + k] == \
+//@         fs.Glob(fs.HostFS, state.Config.Parse.BuildFileName, tmpDir, target.OptionalOutputs, nil, true)[k])
+//@   ensures every_output_collected [C32 C01]: result2 == nil ==> \
+//@      moved == old(moved) + len(old(target.Outputs())) + \
+//@         len(old(fs.Glob(fs.HostFS, state.Config.Parse.BuildFileName, target.TmpDir(), target.OptionalOutputs, nil, true))) && \
+//@      len(result0) == len(old(target.Outputs())) + \
+//@         len(old(fs.Glob(fs.HostFS, state.Config.Parse.BuildFileName, target.TmpDir(), target.OptionalOutputs, nil, true)))
+
+// ---------------------------------------------------------------------------------------------
+// Order of the build steps (C32, C01, C03, C35): buildTarget
+//
+// What later builds trust is the rule-hash record. The contract pins down the order that makes a crash at
+// any point recoverable, as call-site obligations over ghost state that records the calls made so far and
+// their results:
+//   - a target is declared reused only on a negative needsBuilding answer, and for targets whose build can
+//     modify them only on the answer of the re-check made after the stored metadata was re-applied;
+//   - outputs are collected only after the metadata file has been stored;
+//   - the hash is checked/recorded only after every output has been collected successfully;
+//   - the bare writeRuleHash is reached only after a successful retrieve of all artifacts from the cache;
+//   - a target is marked built, and stored in the caches, only after the hash check passed.
+//@ assume func copyFilegroupHashes
+//@   modifies nothing
+//@ assume func buildLinks
+//@   modifies nothing
+//@ func buildTarget
+//@   requires state != nil && target != nil
+//@   opt nopanic=off
+//@   opt precall=off
+//@   opt inline=off
+//@   callsite needsBuilding trackresult needs bool: result
+//@   callsite needsBuilding track rechecked bool: arg_postBuild
+//@   callsite calculateAndCheckRuleHash trackresult hasherr error: result1
+//@   callsite moveOutputs trackresult moveerr error: result2
+//@   callsite StoreTargetMetadata trackresult mderr error: result
+//@   callsite retrieveArtifacts trackresult retrieved bool: result
+//@   callsite (BuildTarget).SetState reused_only_on_a_fresh_negative_answer [C01 C03 C32]: arg_state == core.Reused ==> \
+//@      called("needsBuilding") && !needs && (target.BuildCouldModifyTarget() ==> rechecked)
+//@   callsite (BuildTarget).SetState built_only_after_the_hash_check [C32 C35]: \
+//@      (arg_state == core.Built || arg_state == core.Unchanged) ==> \
+//@      called("buildFilegroup") || (called("calculateAndCheckRuleHash") && hasherr == nil)
+//@   callsite moveOutputs metadata_is_stored_first [C32]: called("StoreTargetMetadata") && mderr == nil
+//@   callsite calculateAndCheckRuleHash after_all_outputs_are_collected [C32]: \
+//@      called("buildFilegroup") || (called("moveOutputs") && moveerr == nil)
+//@   callsite writeRuleHash only_after_artifacts_were_retrieved [C32]: called("retrieveArtifacts") && retrieved
+//@   callsite storeInCache only_verified_outputs [C35 C32]: called("calculateAndCheckRuleHash") && hasherr == nil
+
+// StoreTargetMetadata: the old metadata file is REMOVED (not truncated in place) before the new one is
+// created, so the rule-hash record attached to the old inode can never vouch for new or partial contents.
+//@ func StoreTargetMetadata
+//@   requires target != nil
+//@   opt nopanic=off
+//@   callsite fs.RemoveAll the_old_record_goes_first [C32]: arg_path == targetBuildMetadataFileName(target) && !called("os.Create")
+//@   callsite os.Create on_a_fresh_inode [C32]: called("fs.RemoveAll") && arg_name == targetBuildMetadataFileName(target)
+
+// ---------------------------------------------------------------------------------------------
+// Filegroup outputs (C01, C03): (filegroupBuilder).Build
+//
+// Whenever a filegroup output is (or already was) in place, the hash recorded for it is made to follow its
+// source (CopyHash): a hard-linked output must never keep a stored hash of its own, or a later in-place edit of
+// the source would go unnoticed. An output that is already the same file is left alone and reported unchanged.
+//@ assume func isSameFileContent
+//@   modifies nothing
+//@ func (filegroupBuilder).Build
+//@   requires builder != nil && state != nil && target != nil && state.PathHasher != nil && builder.built != nil
+//@   opt nopanic=off
+//@   opt inline=off
+//@   opt precall=off
+//@   callsite isSameFileContent trackresult same bool: result0
+//@   callsite (PathHasher).CopyHash hash_follows_the_source [C01]: arg_oldPath == from && arg_newPath == to
+//@   callsite fs.RemoveAll only_a_different_file_is_replaced [C03]: arg_path == to && called("isSameFileContent") && !same
+//@   callsite fs.RecursiveCopyOrLinkFile from_source_to_output [C01 C34]: arg_from == from && arg_to == to && called("fs.RemoveAll")
+//@   ensures recorded_hash_follows_the_source [C01]: result1 == nil && !old(in(to, builder.built)) ==> called("(PathHasher).CopyHash")
+//@   ensures same_file_is_unchanged [C03]: result1 == nil && !old(in(to, builder.built)) && same ==> !result0
